@@ -3,6 +3,7 @@
 package geom
 
 func init() {
+	vfHarnesses["C03_closed_ring_6"] = vfhC03ClosedRing6
 	vfHarnesses["C03_triangle_hole"] = vfhC03TriangleHole
 	vfHarnesses["C03_nonfinite_point"] = vfhC03NonFinitePoint
 	vfHarnesses["C03_nonfinite_line"] = vfhC03NonFiniteLine
@@ -211,6 +212,57 @@ func vfhC03TriangleHole() {
 		}
 	} else {
 		vfReach("invalid")
+	}
+	vfReach("end")
+}
+
+// IsSimple / IsRing / Polygon.Validate on a closed curve of 5 segments
+// (6 points): the start vertex v0 is a symbolic lattice point, the other four
+// vertices are one of three concrete chains. Simple iff non-adjacent segments
+// are disjoint and adjacent ones (incl. the closing pair) do not fold back; the
+// verdict does not depend on which vertex the ring is written from.
+func vfhC03ClosedRing6() {
+	v0 := vfPt("v0")
+	var c [4]XY
+	switch vfInt("chain", 0, 2) {
+	case 0:
+		c = [4]XY{{2, 0}, {2, 2}, {-2, -2}, {-2, 0}} // the middle segment runs through the origin
+	case 1:
+		c = [4]XY{{4, 0}, {4, 4}, {0, 4}, {0, 2}}
+	default:
+		c = [4]XY{{2, 1}, {1, 2}, {-1, 2}, {-2, 1}}
+	}
+	vfAssume(!vfEqXY(v0, c[0]))
+	vfAssume(!vfEqXY(v0, c[3]))
+	v := [6]XY{v0, c[0], c[1], c[2], c[3], v0}
+	simple := true
+	for i := 0; i < 5; i++ {
+		for j := i + 1; j < 5; j++ {
+			switch {
+			case j == i+1:
+				simple = vfAnd(simple, !vfBacktrack(v[i], v[i+1], v[j+1]))
+			case i == 0 && j == 4:
+				// closing pair (v4,v0),(v0,v1): only the closing point is shared
+				simple = vfAnd(simple, !vfBacktrack(v[4], v[0], v[1]))
+			default:
+				simple = vfAnd(simple, !vfSegsMeet(v[i], v[i+1], v[j], v[j+1]))
+			}
+		}
+	}
+	ring := vfLineXY(v[0], v[1], v[2], v[3], v[4], v[5])
+	rot := vfLineXY(v[1], v[2], v[3], v[4], v[0], v[1])
+	rot3 := vfLineXY(v[3], v[4], v[0], v[1], v[2], v[3])
+	got := ring.IsSimple()
+	vfAssert(got == simple, "IsSimple(closed, 5 segments) is no-self-contact")
+	vfAssert(rot.IsSimple() == simple, "the same curve written from the next vertex")
+	vfAssert(rot3.IsSimple() == simple, "the same curve written from the fourth vertex")
+	vfAssert(ring.Reverse().IsSimple() == simple, "the same curve reversed")
+	vfAssert(ring.IsRing() == simple, "IsRing = closed and simple")
+	vfAssert((NewPolygon([]LineString{ring}).Validate() == nil) == simple, "a polygon with this shell is valid iff the ring is simple")
+	if got {
+		vfReach("simple")
+	} else {
+		vfReach("not-simple")
 	}
 	vfReach("end")
 }
